@@ -1356,4 +1356,578 @@ theorem fileRead_of_linked (codec : Codec) (s : State) (i : Nat) (d stored : Byt
   simp only [hw, hr, hraw]
   cases cmp <;> simp
 
+/-! ### the composed model only ever refuses schedules: no other error exit is reachable -/
+
+/-- a fragment block in transit (pool or I/O queue) is the worked copy of an in-flight block of the fragment model -/
+def IsCopy (codec : Codec) (h : Bytes → UInt32) (fd : FragDedup.State) (b : Blk) : Prop :=
+  ∃ fb, fd.blocks[b.index]? = some fb ∧ fb.place = FragDedup.Place.inFlight ∧
+    b = processBlock codec h { seq := b.seq, flags := fb.flags, data := fb.data, index := b.index }
+
+def fbAt (j : Nat) (b : Blk) : Bool := b.kind.isFB && b.index == j
+
+structure PInv (codec : Codec) (h : Bytes → UInt32) (s : State) : Prop where
+  pool   : ∀ b ∈ s.pool, b.kind.isFB = true → IsCopy codec h s.fd b
+  queue  : ∀ b ∈ s.ioQueue, b.kind.isFB = true → IsCopy codec h s.fd b
+  queueK : ∀ b ∈ s.ioQueue, b.kind.fragBlk = true → b.kind.isFB = true
+  uniq   : ∀ j, s.pool.countP (fbAt j) + s.ioQueue.countP (fbAt j) ≤ 1
+
+theorem PInv_init (codec : Codec) (h : Bytes → UInt32) (B : Nat) (pre : Bytes) : PInv codec h (init B pre) :=
+  ⟨fun _ hb => (by cases hb), fun _ hb => (by cases hb), fun _ hb => (by cases hb), fun _ => Nat.zero_le _⟩
+
+theorem IsCopy_keep {codec : Codec} {h : Bytes → UInt32} {fd fd' : FragDedup.State} {b : Blk}
+    (hk : FragDedup.Keep fd fd') (hc : IsCopy codec h fd b) : IsCopy codec h fd' b := by
+  obtain ⟨fb, h1, h2, h3⟩ := hc
+  exact ⟨fb, hk _ fb h1 (by rw [h2]; intro hc; cases hc), h2, h3⟩
+
+theorem countP_storeIo (p : Blk → Bool) (b : Blk) : ∀ (l : List Blk),
+    (storeIo b l).countP p = l.countP p + (if p b then 1 else 0) := by
+  intro l
+  induction l with
+  | nil => simp [storeIo, List.countP_cons]
+  | cons x t ih =>
+    unfold storeIo
+    split
+    · simp only [List.countP_cons, ih]; try omega
+    · simp only [List.countP_cons]; try omega
+
+theorem countP_zero_of {p : Blk → Bool} {l : List Blk} (h : ∀ b ∈ l, p b = false) : l.countP p = 0 := by
+  rw [List.countP_eq_zero]
+  intro b hb
+  rw [h b hb]; simp
+
+/-- the fragment-model block `i` has just been closed (in flight) and no block in transit carries index `i` -/
+theorem enqueue_PInv (codec : Codec) (h : Bytes → UInt32) {s : State} (i : Nat) (hinv : PInv codec h s)
+    (hfl : ∃ fb, s.fd.blocks[i]? = some fb ∧ fb.place = FragDedup.Place.inFlight ∧ FragDedup.FlagOk fb.flags)
+    (hnone : ∀ b, b ∈ s.pool ∨ b ∈ s.ioQueue → b.kind.isFB = true → b.index ≠ i) :
+    PInv codec h (enqueueFragBlock codec h s i) := by
+  obtain ⟨fb, hb, hp, hfo⟩ := hfl
+  unfold enqueueFragBlock
+  rw [hb]
+  simp only []
+  generalize hF : processBlock codec h { seq := s.ioSeq, flags := fb.flags, data := fb.data, index := i } = F
+  have hk := processBlock_kind codec h { seq := s.ioSeq, flags := fb.flags, data := fb.data, index := i }
+  rw [hF] at hk
+  have hFc : IsCopy codec h s.fd F := by
+    refine ⟨fb, by rw [hk.2.2]; exact hb, hp, ?_⟩
+    rw [hk.2.1, hk.2.2]; exact hF.symm
+  refine ⟨?_, hinv.queue, hinv.queueK, ?_⟩
+  · intro b hb' hfb
+    rcases List.mem_append.1 hb' with hm | hm
+    · exact hinv.pool b hm hfb
+    · rw [List.mem_singleton] at hm; subst hm; exact hFc
+  · intro j
+    show (s.pool ++ [F]).countP (fbAt j) + s.ioQueue.countP (fbAt j) ≤ 1
+    rw [List.countP_append]
+    by_cases hj : j = i
+    · subst hj
+      have z1 : s.pool.countP (fbAt j) = 0 := countP_zero_of (fun b hb' => by
+        unfold fbAt
+        cases hfb : b.kind.isFB
+        · rfl
+        · have := hnone b (Or.inl hb') hfb
+          simp [this])
+      have z2 : s.ioQueue.countP (fbAt j) = 0 := countP_zero_of (fun b hb' => by
+        unfold fbAt
+        cases hfb : b.kind.isFB
+        · rfl
+        · have := hnone b (Or.inr hb') hfb
+          simp [this])
+      rw [z1, z2]
+      simp only [List.countP_cons, List.countP_nil]
+      split <;> omega
+    · have : fbAt j F = false := by
+        unfold fbAt; rw [hk.2.2]
+        have : (i == j) = false := by simpa using (Ne.symm hj)
+        simp [this]
+      simp only [List.countP_cons, List.countP_nil, this]
+      have := hinv.uniq j
+      simpa using this
+
+theorem closedIdx_some {st st' : FragDedup.State} {i : Nat} (h : closedIdx st st' = some i) :
+    FragDedup.openIndex st = some i ∧ FragDedup.openIndex st' ≠ some i := by
+  unfold closedIdx at h
+  split at h
+  · rename_i j hj
+    split at h
+    · cases h
+    · rename_i hne
+      cases h
+      exact ⟨hj, hne⟩
+  · cases h
+
+/-- no block in transit can carry the index of the open block -/
+theorem transit_not_open {codec : Codec} {h : Bytes → UInt32} {s : State} (hinv : PInv codec h s) {i : Nat}
+    (ho : FragDedup.openIndex s.fd = some i) :
+    ∀ b, b ∈ s.pool ∨ b ∈ s.ioQueue → b.kind.isFB = true → b.index ≠ i := by
+  intro b hb hfb hidx
+  obtain ⟨b0, hb0, hp0, _⟩ := FragDedup.openIndex_some ho
+  have hc : IsCopy codec h s.fd b := by
+    rcases hb with hm | hm
+    · exact hinv.pool b hm hfb
+    · exact hinv.queue b hm hfb
+  obtain ⟨fb, h1, h2, _⟩ := hc
+  rw [hidx, hb0] at h1
+  cases h1
+  rw [hp0] at h2; cases h2
+
+theorem handleFragment_total (codec : Codec) (h : Bytes → UInt32) {s : State} {n : List Blk} (frag : Blk)
+    (hs : SInv s n false) (hz : ZInv codec h s) (hp : PInv codec h s) (hfrag : frag.data ≠ []) :
+    (∀ e, handleFragment codec h s frag ≠ .error e) ∧
+    (∀ s' out, handleFragment codec h s frag = .ok (s', out) → PInv codec h s') := by
+  obtain ⟨r, fd', hpf, hinv', _⟩ := FragDedup.processFragment_spec codec h s.B s.fd frag.data frag.flags [] hz.fdinv hfrag
+    (fun p hp => by cases hp)
+  obtain ⟨hkeep, hclosed⟩ := FragDedup.processFragment_keep codec h s.B s.fd frag.data frag.flags r fd' hz.fdinv hpf
+  have hgf : FragDedup.GoodF fd' := (FragDedup.processFragment_struct codec h s.B s.fd frag.data frag.flags r fd' hpf).1 hs.goodF
+  unfold handleFragment
+  rw [hpf]
+  simp only []
+  generalize hs1 : ({ s with fd := fd', fragTbl := growTbl s.fragTbl fd'.blocks.length,
+                             fevs := s.fevs ++ [.frag frag.data frag.flags], fres := s.fres ++ [some r] } : State) = s1
+  have hp1 : PInv codec h s1 := by
+    subst hs1
+    exact ⟨fun b hb hfb => IsCopy_keep hkeep (hp.pool b hb hfb), fun b hb hfb => IsCopy_keep hkeep (hp.queue b hb hfb),
+      hp.queueK, hp.uniq⟩
+  cases hc : closedIdx s.fd fd' with
+  | none =>
+    simp only []
+    refine ⟨fun e he => (by cases he), ?_⟩
+    intro s' out hok
+    cases hok; exact hp1
+  | some i =>
+    simp only []
+    refine ⟨fun e he => (by cases he), ?_⟩
+    intro s' out hok
+    cases hok
+    obtain ⟨ho, hne⟩ := closedIdx_some hc
+    obtain ⟨b0, hb0, hb0'⟩ := hclosed i ho hne
+    have hnone := transit_not_open hp ho
+    subst hs1
+    exact enqueue_PInv codec h i hp1 ⟨_, hb0', rfl, hgf i _ hb0'⟩ hnone
+
+/-- what the worker makes of a fragment block is what `FragDedup.blockWritten` says is stored -/
+theorem processBlock_fragBlock (codec : Codec) (h : Bytes → UInt32) (seq idx fl : Nat) (data : Bytes)
+    (hfl : FragDedup.FlagOk fl) (hd : data ≠ []) :
+    hasFlag (processBlock codec h { seq := seq, flags := fl, data := data, index := idx }).flags blkIsSparse = false ∧
+    FragDedup.Place.written (processBlock codec h { seq := seq, flags := fl, data := data, index := idx }).data
+        (hasFlag (processBlock codec h { seq := seq, flags := fl, data := data, index := idx }).flags blkIsCompressed)
+      = (if FragDedup.hasFlag fl blkDontCompress then FragDedup.Place.written data false
+         else match codec.cmp data with
+           | some c => FragDedup.Place.written c true
+           | none => FragDedup.Place.written data false) := by
+  have hlen : ¬ data.length = 0 := by
+    intro h0; exact hd (List.length_eq_zero_iff.1 h0)
+  rcases hfl with hf | hf <;> subst hf
+  · have e1 : hasFlag blkFragmentBlock (blkIgnoreSparse ||| blkFragmentBlock) = true := by decide
+    have e2 : hasFlag blkFragmentBlock blkDontHash = false := by decide
+    have e3 : hasFlag blkFragmentBlock (blkIsFragment ||| blkDontCompress) = false := by decide
+    have e4 : FragDedup.hasFlag blkFragmentBlock blkDontCompress = false := by decide
+    have e5 : hasFlag blkFragmentBlock blkIsSparse = false := by decide
+    have e6 : hasFlag blkFragmentBlock blkIsCompressed = false := by decide
+    have e7 : hasFlag (blkFragmentBlock ||| blkIsCompressed) blkIsSparse = false := by decide
+    have e8 : hasFlag (blkFragmentBlock ||| blkIsCompressed) blkIsCompressed = true := by decide
+    unfold processBlock
+    simp only [hlen, if_false, e1, Bool.not_true, Bool.false_and, Bool.false_eq_true, e2, e3, e4]
+    cases codec.cmp data with
+    | none => simp [e5, e6]
+    | some c => simp [e7, e8]
+  · have e1 : hasFlag (blkFragmentBlock ||| blkDontCompress) (blkIgnoreSparse ||| blkFragmentBlock) = true := by decide
+    have e3 : hasFlag (blkFragmentBlock ||| blkDontCompress) (blkIsFragment ||| blkDontCompress) = true := by decide
+    have e4 : FragDedup.hasFlag (blkFragmentBlock ||| blkDontCompress) blkDontCompress = true := by decide
+    have e5 : hasFlag (blkFragmentBlock ||| blkDontCompress) blkIsSparse = false := by decide
+    have e6 : hasFlag (blkFragmentBlock ||| blkDontCompress) blkIsCompressed = false := by decide
+    unfold processBlock
+    simp only [hlen, if_false, e1, Bool.not_true, Bool.false_and, Bool.false_eq_true, e3, e4, if_true, e5, e6]
+    simp
+
+theorem blockWritten_inFlight (codec : Codec) (fd : FragDedup.State) (idx : Nat) (data : Bytes) (fl : Nat)
+    (hb : fd.blocks[idx]? = some ⟨data, FragDedup.Place.inFlight, fl⟩) :
+    ∃ fd', FragDedup.blockWritten codec fd idx = .ok fd' ∧
+      fd'.blocks[idx]? = some ⟨data, (if FragDedup.hasFlag fl blkDontCompress then FragDedup.Place.written data false
+         else match codec.cmp data with
+           | some c => FragDedup.Place.written c true
+           | none => FragDedup.Place.written data false), fl⟩ := by
+  unfold FragDedup.blockWritten
+  rw [hb]
+  simp only []
+  exact ⟨_, rfl, FragDedup.getElem?_modify_self _ _ _ _ hb⟩
+
+theorem bw_run_snoc_inv : ∀ (cs : List Call) (s0 s : BlockWriter.State) (locs : List Nat) (c : Call)
+    (r : BlockWriter.State × List Nat), BlockWriter.run s0 cs = .ok (s, locs) → BlockWriter.run s0 (cs ++ [c]) = .ok r →
+    ∃ s' loc, BlockWriter.writeDataBlock s c.chk c.flags c.data = .ok (s', loc) := by
+  intro cs
+  induction cs with
+  | nil =>
+    intro s0 s locs c r h1 h2
+    simp only [BlockWriter.run] at h1
+    cases h1
+    simp only [List.nil_append, BlockWriter.run] at h2
+    split at h2
+    · cases h2
+    · rename_i s' loc hw
+      exact ⟨s', loc, hw⟩
+  | cons x xs ih =>
+    intro s0 s locs c r h1 h2
+    simp only [List.cons_append, BlockWriter.run] at h1 h2
+    split at h1
+    · cases h1
+    · rename_i s1 l1 hw1
+      rw [hw1] at h2
+      simp only [] at h2
+      split at h1
+      · cases h1
+      · rename_i s2 ls hr2
+        cases h1
+        split at h2
+        · cases h2
+        · rename_i s3 ls3 hr3
+          exact ih s1 s ls c (s3, ls3) hr2 hr3
+
+theorem countP_le_cons (p : Blk → Bool) (b : Blk) (l : List Blk) : l.countP p ≤ (b :: l).countP p := by
+  rw [List.countP_cons]; omega
+
+/-- `process_completed_block` of the head of the I/O queue never fails, and keeps `PInv` -/
+theorem completeBlock_total (codec : Codec) (h : Bytes → UInt32) {pre : Bytes} {s : State} {n : List Blk} {o : Bool}
+    (b : Blk) (rest : List Blk) (hq : s.ioQueue = b :: rest) (hseq : b.seq = s.deqSeq)
+    (hs : SInv s n o) (hl : LInv pre s) (hz : ZInv codec h s) (hp : PInv codec h s) (hB : s.B < 2 ^ 24) :
+    (∀ e, completeBlock codec { s with ioQueue := rest, deqSeq := s.deqSeq + 1 } b ≠ .error e) ∧
+    (∀ s' out, completeBlock codec { s with ioQueue := rest, deqSeq := s.deqSeq + 1 } b = .ok (s', out) → PInv codec h s') := by
+  have hbq : b ∈ s.ioQueue := by rw [hq]; exact List.mem_cons_self ..
+  have hnb : n[s.deqSeq]? = some b := by rw [← hseq]; exact hs.queue b hbq
+  have hlt : s.deqSeq < n.length := (List.getElem?_eq_some_iff.1 hnb).1
+  -- the next call keeps the protocol and the size bound, so the writer accepts it
+  have hcalls : s.calls ++ [b.call] = (n.take (s.deqSeq + 1)).map Blk.call := by
+    rw [List.take_succ_eq_append_getElem hlt, List.map_append, hs.calls]
+    have : n[s.deqSeq] = b := by
+      have := List.getElem?_eq_getElem hlt
+      rw [hnb] at this; exact (Option.some.inj this).symm
+    rw [this]; rfl
+  have hwf : wfS false (s.calls ++ [b.call]) = true := by
+    have h1 : wfS false (n.map Blk.call) = true := wfS_of_wfSt _ _ _ hs.wfn
+    have : n.map Blk.call = (n.take (s.deqSeq + 1)).map Blk.call ++ (n.drop (s.deqSeq + 1)).map Blk.call := by
+      rw [← List.map_append, List.take_append_drop]
+    rw [this] at h1
+    rw [hcalls]; exact wfS_prefix _ _ _ h1
+  have hsz : BlockWriter.sizesOk (s.calls ++ [b.call]) := by
+    intro c hc
+    rcases List.mem_append.1 hc with hm | hm
+    · exact Nat.lt_of_le_of_lt (hz.calls c hm) hB
+    · rw [List.mem_singleton] at hm; subst hm
+      exact Nat.lt_of_le_of_lt (hz.queue b hbq) hB
+  obtain ⟨bwf, locsf, _, _, _, hrf, _⟩ := BlockWriter.run_spec (pre := pre) (s.calls ++ [b.call]) (BlockWriter.Inv_init pre) hsz
+    (BlockWriter.wfS_wf _ _ hwf)
+  obtain ⟨bw', loc, hw⟩ := bw_run_snoc_inv s.calls _ _ _ b.call _ hl.bwrun hrf
+  have hw' : BlockWriter.writeDataBlock s.bw b.chk (clearFlag b.flags blkFlagInternal) b.data = .ok (bw', loc) := hw
+  by_cases hfb : hasFlag b.flags blkFragmentBlock = true
+  · -- a fragment block: it is the worked copy of an in-flight block
+    have hisfb : b.kind.isFB = true := hp.queueK b hbq hfb
+    obtain ⟨fb, h1, h2, h3⟩ := hp.queue b hbq hisfb
+    obtain ⟨data, place, fl⟩ := fb
+    simp only [] at h2
+    subst h2
+    obtain ⟨fd', hbw, hget⟩ := blockWritten_inFlight codec s.fd b.index data fl h1
+    have hcomp := processBlock_fragBlock codec h b.seq b.index fl data (hs.goodF _ _ h1) (hz.fdinv.blocks _ _ h1).1
+    rw [← h3] at hcomp
+    rw [← hcomp.2] at hget
+    -- other blocks in transit have another index
+    have hother : ∀ x, x ∈ s.pool ∨ x ∈ rest → x.kind.isFB = true → x.index ≠ b.index := by
+      intro x hx hxfb hidx
+      have hu := hp.uniq b.index
+      rw [hq, List.countP_cons] at hu
+      have hb1 : fbAt b.index b = true := by simp [fbAt, hisfb]
+      rw [hb1] at hu
+      have hx1 : fbAt b.index x = true := by simp [fbAt, hxfb, hidx]
+      rcases hx with hm | hm
+      · have : 0 < s.pool.countP (fbAt b.index) := List.countP_pos_iff.2 ⟨x, hm, hx1⟩
+        simp at hu; omega
+      · have : 0 < rest.countP (fbAt b.index) := List.countP_pos_iff.2 ⟨x, hm, hx1⟩
+        simp at hu; omega
+    obtain ⟨_, _, _, _, _, hothers, _⟩ := FragDedup.blockWritten_struct codec s.fd fd' b.index hbw
+    have hkeepc : ∀ x, x ∈ s.pool ∨ x ∈ rest → x.kind.isFB = true → IsCopy codec h s.fd x → IsCopy codec h fd' x := by
+      intro x hx hxfb hc
+      obtain ⟨fbx, a1, a2, a3⟩ := hc
+      exact ⟨fbx, by rw [hothers _ (hother x hx hxfb)]; exact a1, a2, a3⟩
+    have hp' : ∀ t : State, t.pool = s.pool → t.ioQueue = rest → t.fd = fd' → PInv codec h t := by
+      intro t t1 t2 t3
+      refine ⟨?_, ?_, ?_, ?_⟩
+      · intro x hx hxfb; rw [t1] at hx; rw [t3]; exact hkeepc x (Or.inl hx) hxfb (hp.pool x hx hxfb)
+      · intro x hx hxfb; rw [t2] at hx; rw [t3]
+        exact hkeepc x (Or.inr hx) hxfb (hp.queue x (by rw [hq]; exact List.mem_cons_of_mem _ hx) hxfb)
+      · intro x hx; rw [t2] at hx; exact hp.queueK x (by rw [hq]; exact List.mem_cons_of_mem _ hx)
+      · intro j; rw [t1, t2]
+        have := hp.uniq j
+        rw [hq] at this
+        have := countP_le_cons (fbAt j) b rest
+        omega
+    unfold completeBlock
+    simp only [hw', hfb, if_true, hbw, hget, hcomp.1, and_self, if_true]
+    refine ⟨?_, ?_⟩
+    · intro e he; split at he <;> cases he
+    · intro s' out hok
+      split at hok <;> (cases hok; exact hp' _ rfl rfl rfl)
+  · have hfb' : hasFlag b.flags blkFragmentBlock = false := by simpa using hfb
+    unfold completeBlock
+    simp only [hw', hfb', Bool.false_eq_true, if_false]
+    refine ⟨fun e he => (by cases he), ?_⟩
+    intro s' out hok
+    cases hok
+    refine ⟨hp.pool, ?_, ?_, ?_⟩
+    · intro x hx hxfb; exact hp.queue x (by rw [hq]; exact List.mem_cons_of_mem _ hx) hxfb
+    · intro x hx; exact hp.queueK x (by rw [hq]; exact List.mem_cons_of_mem _ hx)
+    · intro j
+      have := hp.uniq j
+      rw [hq] at this
+      have := countP_le_cons (fbAt j) b rest
+      show s.pool.countP (fbAt j) + rest.countP (fbAt j) ≤ 1
+      omega
+
+theorem front_cons (s : State) (blk : Blk) (rest : List Blk) (hp : s.pool = blk :: rest) :
+    front s = (if blk.kind.isFB then [] else [blk.kind]) ++ front { s with pool := rest } := by
+  unfold front
+  rw [hp]
+  simp only [List.map_cons, List.filter_cons]
+  cases blk.kind.isFB <;> simp
+
+/-- a tail end at the head of the pool: no file is open, and the invariant holds with the tail end taken out -/
+theorem SInv_deq_frag {s : State} {n : List Blk} {o : Bool} (hinv : SInv s n o) (blk : Blk) (rest : List Blk)
+    (hp : s.pool = blk :: rest) (hif : blk.kind.isFrag = true) : SInv { s with pool := rest } n false ∧ o = false := by
+  have hnfb : blk.kind.isFB = false := by simp [Kind.isFB, hif]
+  have hfe := hinv.fe
+  rw [front_cons s blk rest hp, hnfb] at hfe
+  simp only [Bool.false_eq_true, if_false, List.singleton_append] at hfe
+  unfold feOkK at hfe
+  simp only [hif, if_true, Bool.and_eq_true, Bool.not_eq_true'] at hfe
+  obtain ⟨ho, hfe0⟩ := hfe
+  subst ho
+  exact ⟨⟨hinv.len, hinv.calls, hinv.deq, hinv.queue,
+    fun b hb hfb => hinv.poolfb b (by rw [hp]; exact List.mem_cons_of_mem _ hb) hfb, hinv.goodF, hinv.wfn, hfe0⟩, rfl⟩
+
+/-- a data block at the head of the pool carries no `FRAGMENT_BLOCK` flag -/
+theorem SInv_deq_data {s : State} {n : List Blk} {o : Bool} (hinv : SInv s n o) (blk : Blk) (rest : List Blk)
+    (hp : s.pool = blk :: rest) (hif : blk.kind.isFrag = false) (hnfb : blk.kind.isFB = false) :
+    blk.kind.fragBlk = false := by
+  have hfe := hinv.fe
+  rw [front_cons s blk rest hp, hnfb] at hfe
+  simp only [Bool.false_eq_true, if_false, List.singleton_append] at hfe
+  unfold feOkK at hfe
+  simp only [hif, Bool.false_eq_true, if_false, Bool.and_eq_true, Bool.not_eq_true'] at hfe
+  exact hfe.1
+
+structure AllInv (pre : Bytes) (codec : Codec) (h : Bytes → UInt32) (s : State) : Prop where
+  si : ∃ n o, SInv s n o
+  li : LInv pre s
+  zi : ZInv codec h s
+  pi : PInv codec h s
+  fit : Fits codec s.B
+  bpos : 0 < s.B
+  blt : s.B < 2 ^ 24
+
+theorem step_total (codec : Codec) (hrt : codec.RoundTrip) (h : Bytes → UInt32) {pre : Bytes} {s : State} (e : Ev)
+    (hinv : AllInv pre codec h s) :
+    (∀ x, step codec h s e = .error x → x = .badEvent ∨ x = .unsupported) ∧
+    (∀ s' out, step codec h s e = .ok (s', out) → AllInv pre codec h s') := by
+  obtain ⟨⟨n, o, hs⟩, hl, hz, hp, hfit, hB0, hB⟩ := hinv
+  -- everything except `PInv` is preserved by the lemmas above
+  have rest : ∀ s' out, step codec h s e = .ok (s', out) → PInv codec h s' → AllInv pre codec h s' := by
+    intro s' out hok hp'
+    obtain ⟨hz', hBs⟩ := step_ZInv codec hrt h hfit hB0 e out hz hok
+    exact ⟨step_SInv codec h e out hs hok, step_LInv codec h e out hl hok, hz', hp', by rw [hBs]; exact hfit,
+      by rw [hBs]; exact hB0, by rw [hBs]; exact hB⟩
+  cases e with
+  | file uflags data =>
+    refine ⟨?_, ?_⟩
+    · intro x hx
+      simp only [step] at hx
+      split at hx
+      · cases hx; exact Or.inr rfl
+      · cases hx
+    · intro s' out hok
+      refine rest s' out hok ?_
+      simp only [step] at hok
+      split at hok
+      · cases hok
+      · cases hok; exact ⟨hp.pool, hp.queue, hp.queueK, hp.uniq⟩
+  | submit =>
+    refine ⟨?_, ?_⟩
+    · intro x hx
+      simp only [step] at hx
+      split at hx
+      · cases hx; exact Or.inl rfl
+      · cases hx
+    · intro s' out hok
+      refine rest s' out hok ?_
+      simp only [step] at hok
+      split at hok
+      · cases hok
+      · rename_i b rs hpd
+        cases hok
+        have hk := processBlock_kind codec h b
+        have hmem : b.kind ∈ front s := by unfold front; rw [hpd]; simp
+        have hnfb : (processBlock codec h b).kind.isFB = false := by rw [hk.1]; exact feOkK_noFB _ _ hs.fe _ hmem
+        refine ⟨?_, hp.queue, hp.queueK, ?_⟩
+        · intro x hx hfb
+          rcases List.mem_append.1 hx with hm | hm
+          · exact hp.pool x hm hfb
+          · rw [List.mem_singleton] at hm; subst hm; rw [hnfb] at hfb; cases hfb
+        · intro j
+          show (s.pool ++ [processBlock codec h b]).countP (fbAt j) + s.ioQueue.countP (fbAt j) ≤ 1
+          rw [List.countP_append]
+          have : fbAt j (processBlock codec h b) = false := by simp [fbAt, hnfb]
+          simp only [List.countP_cons, List.countP_nil, this]
+          have := hp.uniq j
+          simpa using this
+  | dequeue =>
+    cases hpl : s.pool with
+    | nil =>
+      refine ⟨?_, ?_⟩
+      · intro x hx; simp only [step, hpl] at hx; cases hx; exact Or.inl rfl
+      · intro s' out hok; simp only [step, hpl] at hok; cases hok
+    | cons blk rs =>
+      have hblk := hz.pool blk (by rw [hpl]; exact List.mem_cons_self ..)
+      have hcnt : ∀ j, rs.countP (fbAt j) ≤ s.pool.countP (fbAt j) := by
+        intro j; rw [hpl]; exact countP_le_cons _ _ _
+      have hp0 : PInv codec h { s with pool := rs } :=
+        ⟨fun b hb hfb => hp.pool b (by rw [hpl]; exact List.mem_cons_of_mem _ hb) hfb, hp.queue, hp.queueK,
+          fun j => by have := hp.uniq j; have := hcnt j; show rs.countP (fbAt j) + s.ioQueue.countP (fbAt j) ≤ 1; omega⟩
+      by_cases hif : hasFlag blk.flags blkIsFragment = true
+      · have hif' : blk.kind.isFrag = true := hif
+        obtain ⟨hs0, _⟩ := SInv_deq_frag hs blk rs hpl hif'
+        have hz0 : ZInv codec h { s with pool := rs } :=
+          ⟨hz.pend, fun b hb => hz.pool b (by rw [hpl]; exact List.mem_cons_of_mem _ hb), hz.queue, hz.calls, hz.fdinv,
+            hz.goodS, hz.frun, hz.fok⟩
+        obtain ⟨t1, t2⟩ := handleFragment_total codec h blk hs0 hz0 hp0 (hblk.2 hif')
+        refine ⟨?_, ?_⟩
+        · intro x hx
+          simp only [step, hpl, hif, if_true] at hx
+          exact absurd hx (t1 x)
+        · intro s' out hok
+          refine rest s' out hok ?_
+          simp only [step, hpl, hif, if_true] at hok
+          exact t2 s' out hok
+      · have hif' : blk.kind.isFrag = false := by
+          have : hasFlag blk.flags blkIsFragment = false := by simpa using hif
+          exact this
+        by_cases hnum : (!hasFlag blk.flags blkFragmentBlock || hasFlag blk.flags blkFlagManualSubmission) = true
+        · have hnfb : blk.kind.isFB = false := by
+            have hnum' : (!blk.kind.fragBlk || blk.kind.internal) = true := hnum
+            simp only [Kind.isFB, hif']
+            cases hfbk : blk.kind.fragBlk <;> cases hik : blk.kind.internal <;> simp_all
+          have hnofb := SInv_deq_data hs blk rs hpl hif' hnfb
+          refine ⟨?_, ?_⟩
+          · intro x hx; simp only [step, hpl, hif, hnum, if_true] at hx; cases hx
+          · intro s' out hok
+            refine rest s' out hok ?_
+            simp only [step, hpl, hif, hnum, if_true] at hok
+            cases hok
+            have hb'k : ({ blk with seq := s.ioSeq } : Blk).kind = blk.kind := rfl
+            have hfalse : ∀ j, fbAt j ({ blk with seq := s.ioSeq } : Blk) = false := by
+              intro j; simp [fbAt, hb'k, hnfb]
+            refine ⟨hp0.pool, ?_, ?_, ?_⟩
+            · intro x hx hfb
+              rcases mem_storeIo _ _ _ hx with hm | hm
+              · subst hm; rw [hb'k, hnfb] at hfb; cases hfb
+              · exact hp.queue x hm hfb
+            · intro x hx hfk
+              rcases mem_storeIo _ _ _ hx with hm | hm
+              · subst hm; rw [hb'k, hnofb] at hfk; cases hfk
+              · exact hp.queueK x hm hfk
+            · intro j
+              show rs.countP (fbAt j) + (storeIo _ s.ioQueue).countP (fbAt j) ≤ 1
+              rw [countP_storeIo, hfalse j]
+              have := hp.uniq j; have := hcnt j
+              simp only [Bool.false_eq_true, if_false, Nat.add_zero]; omega
+        · have hfbk : blk.kind.isFB = true := by
+            have hnum' : ¬ (!blk.kind.fragBlk || blk.kind.internal) = true := hnum
+            simp only [Kind.isFB, hif']
+            cases hfbk : blk.kind.fragBlk <;> cases hik : blk.kind.internal <;> simp_all
+          refine ⟨?_, ?_⟩
+          · intro x hx; simp only [step, hpl, hif, hnum, if_false] at hx; cases hx
+          · intro s' out hok
+            refine rest s' out hok ?_
+            simp only [step, hpl, hif, hnum, if_false] at hok
+            cases hok
+            have hcopy := hp.pool blk (by rw [hpl]; exact List.mem_cons_self ..) hfbk
+            refine ⟨hp0.pool, ?_, ?_, ?_⟩
+            · intro x hx hfb
+              rcases mem_storeIo _ _ _ hx with hm | hm
+              · subst hm; exact hcopy
+              · exact hp.queue x hm hfb
+            · intro x hx hfk
+              rcases mem_storeIo _ _ _ hx with hm | hm
+              · subst hm; exact hfbk
+              · exact hp.queueK x hm hfk
+            · intro j
+              show rs.countP (fbAt j) + (storeIo blk s.ioQueue).countP (fbAt j) ≤ 1
+              rw [countP_storeIo]
+              have := hp.uniq j
+              rw [hpl, List.countP_cons] at this
+              omega
+  | complete =>
+    cases hq : s.ioQueue with
+    | nil =>
+      refine ⟨?_, ?_⟩
+      · intro x hx; simp only [step, hq] at hx; cases hx; exact Or.inl rfl
+      · intro s' out hok; simp only [step, hq] at hok; cases hok
+    | cons b rs =>
+      by_cases hseq : (b.seq != s.deqSeq) = true
+      · refine ⟨?_, ?_⟩
+        · intro x hx; simp only [step, hq, hseq, if_true] at hx; cases hx; exact Or.inl rfl
+        · intro s' out hok; simp only [step, hq, hseq, if_true] at hok; cases hok
+      · have hseq' : b.seq = s.deqSeq := by simpa using hseq
+        obtain ⟨t1, t2⟩ := completeBlock_total codec h b rs hq hseq' hs hl hz hp hB
+        refine ⟨?_, ?_⟩
+        · intro x hx
+          simp only [step, hq, hseq, Bool.false_eq_true, if_false] at hx
+          exact absurd hx (t1 x)
+        · intro s' out hok
+          refine rest s' out hok ?_
+          simp only [step, hq, hseq, Bool.false_eq_true, if_false] at hok
+          exact t2 s' out hok
+  | finish =>
+    by_cases hg : (!(s.pending.isEmpty && s.pool.isEmpty && s.ioQueue.isEmpty)) = true
+    · refine ⟨?_, ?_⟩
+      · intro x hx; simp only [step, hg, if_true] at hx; cases hx; exact Or.inl rfl
+      · intro s' out hok; simp only [step, hg, if_true] at hok; cases hok
+    · refine ⟨?_, ?_⟩
+      · intro x hx
+        simp only [step, hg, Bool.false_eq_true, if_false] at hx
+        split at hx <;> cases hx
+      · intro s' out hok
+        refine rest s' out hok ?_
+        simp only [step, hg, Bool.false_eq_true, if_false] at hok
+        split at hok
+        · cases hok; exact ⟨hp.pool, hp.queue, hp.queueK, hp.uniq⟩
+        · rename_i i hoi
+          cases hok
+          obtain ⟨hkeep, hclosed⟩ := FragDedup.closeOpen_keep s.fd
+          obtain ⟨b0, hb0, hb0'⟩ := hclosed i hoi
+          have hp1 : PInv codec h { s with fd := FragDedup.closeOpen s.fd, fevs := s.fevs ++ [.finish], fres := s.fres ++ [none] } :=
+            ⟨fun b hb hfb => IsCopy_keep hkeep (hp.pool b hb hfb), fun b hb hfb => IsCopy_keep hkeep (hp.queue b hb hfb),
+              hp.queueK, hp.uniq⟩
+          have hgf := (FragDedup.closeOpen_struct s.fd).1 hs.goodF
+          exact enqueue_PInv codec h i hp1 ⟨_, hb0', rfl, hgf i _ hb0'⟩ (transit_not_open hp hoi)
+
+theorem AllInv_init (codec : Codec) (h : Bytes → UInt32) (B : Nat) (pre : Bytes) (hfit : Fits codec B) (hB0 : 0 < B)
+    (hB : B < 2 ^ 24) : AllInv pre codec h (init B pre) :=
+  ⟨⟨[], false, SInv_init B pre⟩, LInv_init B pre, ZInv_init codec h B pre, PInv_init codec h B pre, hfit, hB0, hB⟩
+
+theorem run_total (codec : Codec) (hrt : codec.RoundTrip) (h : Bytes → UInt32) {pre : Bytes} : ∀ (evs : List Ev) {s : State},
+    AllInv pre codec h s → ∀ x, run codec h s evs = .error x → x = .badEvent ∨ x = .unsupported := by
+  intro evs
+  induction evs with
+  | nil => intro s _ x hx; simp only [run] at hx; cases hx
+  | cons e es ih =>
+    intro s hinv x hx
+    obtain ⟨t1, t2⟩ := step_total codec hrt h e hinv
+    unfold run at hx
+    split at hx
+    · rename_i y hy
+      cases hx
+      exact t1 _ hy
+    · rename_i s1 o1 hs1
+      split at hx
+      · rename_i y hy
+        cases hx
+        exact ih (t2 s1 o1 hs1) _ hy
+      · cases hx
+
 end Sqfs.C08Stream
